@@ -1,3 +1,4 @@
+@dt.setter
 def spec(self, value):
     FoldReducer.dt.fset(self, value)
     self.decay = exp(-self.dt / self.time_constant)
